@@ -5,6 +5,7 @@
   and propose the minimal corrected statement.
 -/
 import Cgp.ItsOps
+import Cgp.Toy
 namespace Cgp.Props.C11
 open Cgp Cgp.Xdr Cgp.Its
 
@@ -809,5 +810,97 @@ theorem remote_deploy_exact (st st' : State) (c i sa payload origin : Bytes) (d 
   simp only at ha
   subst ha hst1 hst'
   refine ⟨by simp, _, setTok_get _ _ _, rfl, rfl, rfl, rfl, rfl, rfl, fun _ => rfl, fun _ => rfl⟩
+
+/-! ### non-vacuity (the service model RUN in the kernel on a concrete history, toy hash) -/
+section NonVacuity
+open Cgp.Toy
+
+def k0 : Consts := ⟨[104], [1], [2], [3], [4]⟩
+def svc : Addr := ⟨true, List.replicate 32 8⟩
+def user : Addr := ⟨false, List.replicate 32 11⟩
+def canon : Addr := ⟨true, List.replicate 32 22⟩
+def sac : Tok := { kind := .sac, name := [71], symbol := [71], decimals := 7, bal := fun a => if a = user then 500 else 0, owner := owner0, minter := fun _ => false, tokenId := [] }
+def gw0 : Gateway.State := Gateway.initState owner0 owner0 [1] 0 0
+/-- a service with an empty registry -/
+def st0 : State :=
+  { self := svc, owner := owner0, gatewayAddr := ⟨true, List.replicate 32 6⟩, gasService := ⟨true, List.replicate 32 5⟩,
+    hubAddress := [120], chainName := [115], trusted := fun c => c == [101], registry := fun _ => none, gw := gw0,
+    tokens := fun a => if a = canon then some sac else none, executable := fun _ => false }
+def salt : Bytes := List.replicate 32 1
+def salt2 : Bytes := List.replicate 32 2
+def tid1 : Bytes := interchainTokenId H0 k0 [115] user salt
+def tid2 : Bytes := interchainTokenId H0 k0 [115] user salt2
+def tidR : Bytes := List.replicate 32 51
+def a1 : Addr := deployedAddress S0 k0 svc tid1
+def tidc : Bytes := canonicalTokenId H0 k0 [115] canon
+def dep (tid : Bytes) : Abi.Deploy := ⟨tid, [84], [84], 6, none⟩
+/-- a remote deploy message for `tid`, from the trusted chain "e" through the hub -/
+def remoteDeploy (tid : Bytes) : Bytes :=
+  match Abi.encodeHub (.receiveFromHub [101] (.deploy (dep tid))) with
+  | .ok b => b
+  | .error _ => []
+def approveFor (id payload : Bytes) (g : Gateway.State) : Gateway.State :=
+  { g with approvals := fun c i => if c = [104] ∧ i = id then .approved (Gateway.messageHash H0 ⟨[104], id, [120], svc, H0 payload⟩) else g.approvals c i }
+/-- the history that fills the registry: a local deployment and a canonical registration … -/
+def ops1 : List Op :=
+  [ .deploy [user] user salt [84] [84] 6 100 none,
+    .registerCanonical canon ]
+/-- … and the history after it: every attempt to take one of the two ids again is refused, a fresh id is accepted -/
+def ops2 : List Op :=
+  [ .deploy [user] user salt [84] [84] 6 100 none,              -- same deployer and salt: refused
+    .deploy [user] user salt [85] [85] 7 0 (some user),         -- … also with other metadata
+    .registerCanonical canon,                                   -- registered already: refused
+    .gateway (approveFor [49] (remoteDeploy tid1)),
+    .execute [104] [49] [120] (remoteDeploy tid1),              -- an approved remote deploy message for a taken id: refused
+    .deploy [user] user salt2 [85] [85] 7 0 none,               -- another salt: accepted
+    .transferOwnership [owner0] user ]
+def itsErr : Obs → Option Err | .err e => some e | _ => none
+
+instance (chain tid : Bytes) (op : Op) : Decidable (DeploysId H k chain tid op) := by
+  cases op <;> simp only [DeploysId] <;> infer_instance
+
+theorem regInv_run (st : State) (ops : List Op) (h : RegInv S k st) : RegInv S k (run H S k st ops).1 := by
+  induction ops generalizing st with
+  | nil => exact h
+  | cons op ops ih =>
+    simp only [run]
+    exact ih _ (regInv_step H S k st op h)
+
+theorem regInv_st0 : RegInv S0 k0 st0 := by
+  intro tid addr h
+  simp [st0] at h
+
+/-- the hypotheses of `regInv_step`, `registry_write_once` (for a native and for a canonical entry), `redeploy_refused` and
+    `taken_id_refused` are satisfiable, and the refusals really happen: after a local deployment and a canonical registration the
+    registry holds two entries; re-deploying with the same salt, re-registering, and an approved remote deploy message for a
+    taken id are refused (each for its own reason) while a fresh salt is accepted; the two entries are unchanged -/
+theorem registry_write_once_nonvacuous :
+    RegInv S0 k0 st0 ∧ RegInv S0 k0 (run H0 S0 k0 st0 ops1).1 ∧
+    -- `taken_id_refused`, second part
+    Abi.decodeHub (remoteDeploy tid1) = .ok (.receiveFromHub [101] (.deploy (dep tid1))) ∧
+    ((run H0 S0 k0 st0 ops1).1.registry (dep tid1).tokenId).isSome = true ∧
+    -- the first history fills the registry
+    (run H0 S0 k0 st0 ops1).2.map itsErr = [none, none] ∧
+    [tid1, tidc, tid2].map (fun t => (st0.registry t).isSome) = [false, false, false] ∧
+    (run H0 S0 k0 st0 ops1).1.registry tid1 = some (a1, .native) ∧
+    (run H0 S0 k0 st0 ops1).1.registry tidc = some (canon, .lockUnlock) ∧
+    [tid1, tidc, tid2].Nodup ∧
+    -- side condition of `registry_write_once`, for both entries
+    ((a1, Manager.native).2 = .lockUnlock → ∀ op ∈ ops2, ¬ DeploysId H0 k0 (run H0 S0 k0 st0 ops1).1.chainName tid1 op) ∧
+    ((canon, Manager.lockUnlock).2 = .lockUnlock → ∀ op ∈ ops2, ¬ DeploysId H0 k0 (run H0 S0 k0 st0 ops1).1.chainName tidc op) ∧
+    -- `redeploy_refused`
+    ((run H0 S0 k0 st0 ops1).1.tokens (deployedAddress S0 k0 (run H0 S0 k0 st0 ops1).1.self
+        (interchainTokenId H0 k0 (run H0 S0 k0 st0 ops1).1.chainName user salt))).isSome = true ∧
+    -- `taken_id_refused`, first part
+    ((run H0 S0 k0 st0 ops1).1.registry (canonicalTokenId H0 k0 (run H0 S0 k0 st0 ops1).1.chainName canon)).isSome = true ∧
+    -- the second history: refusals, and the entries afterwards
+    (run H0 S0 k0 (run H0 S0 k0 st0 ops1).1 ops2).2.map itsErr =
+      [some .deployFailed, some .deployFailed, some .tokenAlreadyRegistered, none, some .tokenAlreadyDeployed, none, none] ∧
+    [tid1, tidc, tid2].map (run H0 S0 k0 (run H0 S0 k0 st0 ops1).1 ops2).1.registry =
+      [some (a1, .native), some (canon, .lockUnlock), some (deployedAddress S0 k0 svc tid2, .native)] := by
+  refine ⟨regInv_st0, regInv_run H0 S0 k0 _ _ regInv_st0, eq_ok_of_toOption _ _ (by decide +kernel), ?_⟩
+  decide +kernel
+
+end NonVacuity
 
 end Cgp.Props.C11
